@@ -285,7 +285,10 @@ def execTag (what : String) (circ : Circ Float) (shots : Nat) (i : Nat) (reexec 
     if shots = 0 then s!"{what}:zero-shots" else
     -- a defect of an earlier operation may have left a state the failing operation trips over
     -- (on re-execution: of ANY operation of the previous run)
-    match firstTag (((if reexec then circ.ops else circ.ops.take i)).flatMap (opDefects circ.nq)) Defect.exec with
+    -- only a gate on a repeated qubit corrupts the state silently: name it first
+    let earlier := ((if reexec then circ.ops else circ.ops.take i)).flatMap (opDefects circ.nq)
+    if earlier.contains .dupQubits then s!"{what}:after-dup-qubits" else
+    match firstTag earlier Defect.exec with
     | some t => s!"{what}:after-{t}"
     | none => s!"{what}:wellformed-circuit"
 
